@@ -23,8 +23,8 @@ block that does anything else.
 """
 import copy
 
-MAX_BLOCKS = 10
-MAX_STMTS = 24
+MAX_BLOCKS = 28
+MAX_STMTS = 80
 TRY_BRANCH = "std::ops::Try::branch"
 FROM_RESIDUAL = "std::ops::FromResidual::from_residual"
 
@@ -160,9 +160,13 @@ def thread_bools(body):
         """the stored local also receives values inside a loop that the testing block is not part of: a state variable of
         that loop (set while scanning, matched afterwards) -- left to the loop analyses"""
         sw = nest(switch_bb)
-        for (b, i, kind, payload) in defs.get(root, []):
-            if nest(b) - sw:
-                return True
+        ds = defs.get(root, [])
+        for (b, i, kind, payload) in ds:
+            for h in nest(b) - sw:
+                # assigned inside loop h, tested outside it: carried across iterations only if it is also initialised on
+                # the way into the loop (a temporary that each iteration assigns afresh is not state)
+                if any(b2 not in loops[h] and body.dominates(b2, h) for (b2, _, _, _) in ds):
+                    return True
         return False
 
     n_threaded = 0
